@@ -283,8 +283,10 @@ func vc_Streamer_Error_requires(s *Streamer) bool { return s != nil && s.ctx != 
 // C05 (d): the receive must not be on a nil channel (it would block forever)
 func vc_chan_recv_ok_errChan(s *Streamer) bool { return s.errChan != nil }
 
-// C06: nil only for a closed channel, a cancellation or the master's EOF; otherwise the reason itself
-func vc_Streamer_Error_ensures_filter(s *Streamer, res error, err *Error, ok bool) bool {
+// C06: nil only for a closed channel, a cancellation or the master's EOF; otherwise the reason itself.
+// Stated in two clauses: while the caller's context is live, and when it has been cancelled by the time Error()
+// runs (known finding F5: in the second case any reason — a lost connection, a master-side error — is dropped).
+func specErrorFilter(res error, err *Error, ok bool) bool {
 	if !ok {
 		return res == nil
 	}
@@ -292,6 +294,14 @@ func vc_Streamer_Error_ensures_filter(s *Streamer, res error, err *Error, ok boo
 		return res == nil
 	}
 	return res != nil
+}
+
+func vc_Streamer_Error_ensures_filter(s *Streamer, res error, err *Error, ok bool) bool {
+	return s.ctx.Err() == context.Canceled || specErrorFilter(res, err, ok)
+}
+
+func vc_Streamer_Error_ensures_filterLateCancel(s *Streamer, res error, err *Error, ok bool) bool {
+	return s.ctx.Err() != context.Canceled || specErrorFilter(res, err, ok)
 }
 
 // channel value invariant of errChan: the reader only ever sends a non-nil reason (proved in the reader's unit:
